@@ -1,12 +1,18 @@
 /* C03 (+C05/C06 for maps): replays MapDict.tla scripts on one of the three map classes.
- * usage: map_replay <array|linked_list|dlinked_list> <NK> <NV> <scriptfile> [first]
+ * usage: map_replay <array|linked_list|dlinked_list> <NK> <NV> <enc> <full|compact> <scriptfile> [first]
  * Keys 1..NK, values 1..NV are spif_str objects; probes 0 and NK+1 lie below / above every storable key.
+ * enc: text family of the objects (c03_util.h: 0 digits, 1 first byte sweeps 1..255, 2 last byte sweeps 1..255,
+ *      -1 chosen per script from its id).
+ * full: the read-back probes get/has_key of EVERY key of the universe after every step (small universes).
+ * compact: (size sweeps, maps of thousands of keys) the state is read through the iterator and get/has_key are probed at
+ *      the position classes smallest / second / middle / next-to-largest / largest / absent below, between, above.
  * State token: {a=[[k,v],..],b={live=T|F,s=[[k,v],..]},held=h,it=n}
  */
 #include "common.h"
 #include "c03_util.h"
 
 static long NK = 3, NV = 2;
+static int compact = 0;
 static spif_map_t A, B;
 static spif_iterator_t IT;
 static int it_count;          /* mirror: number of next() calls that yielded, capped like the spec */
@@ -120,7 +126,98 @@ static const char *readback(spif_map_t M, const char *which, vh_sb *out) {
     return NULL;
 }
 
+/* compact read-back for large maps: the state is what a fresh iterator yields; everything else is checked against it */
+static const char *readback_compact(spif_map_t M, const char *which, vh_sb *out) {
+    static long keys[1 << 15], vals[1 << 15];
+    long n = (long) SPIF_MAP_COUNT(M), i, v, gap = -1, pos[5], np = 0, probes[8], npr = 0, q;
+    spif_list_t L;
+    spif_iterator_t it;
+    const char *inv;
+
+    if (n < 0 || n > NK || n >= (1 << 15)) CU_FAIL("%s:count=%ld", which, n);
+    it = SPIF_MAP_ITERATOR(M);
+    if (SPIF_ITERATOR_ISNULL(it)) CU_FAIL("%s:iterator()=NULL", which);
+    for (i = 0; i < n; i++) {
+        spif_obj_t p;
+        if (!SPIF_ITERATOR_HAS_NEXT(it)) { SPIF_ITERATOR_DEL(it); CU_FAIL("%s:iter_has_next_false_at_%ld_of_%ld", which, i, n); }
+        p = SPIF_ITERATOR_NEXT(it);
+        if (!SPIF_OBJ_IS_OBJPAIR(p)) { SPIF_ITERATOR_DEL(it); CU_FAIL("%s:iter_next_not_a_pair_at_%ld", which, i); }
+        keys[i] = cu_val(SPIF_OBJPAIR(p)->key); vals[i] = cu_val(SPIF_OBJPAIR(p)->value);
+    }
+    if (SPIF_ITERATOR_HAS_NEXT(it)) { SPIF_ITERATOR_DEL(it); CU_FAIL("%s:iter_has_next_true_after_%ld", which, n); }
+    if (!SPIF_OBJ_ISNULL(SPIF_ITERATOR_NEXT(it))) { SPIF_ITERATOR_DEL(it); CU_FAIL("%s:iter_next_after_end!=NULL", which); }
+    SPIF_ITERATOR_DEL(it);
+    sb_putc(out, '[');
+    for (i = 0; i < n; i++) { if (i) sb_putc(out, ','); sb_printf(out, "[%ld,%ld]", keys[i], vals[i]); }
+    sb_putc(out, ']');
+    for (i = 0; i < n; i++) {
+        if (keys[i] < 1 || keys[i] > NK) CU_FAIL("%s:iteration_key_outside_the_universe_at_%ld", which, i);
+        if (i && keys[i - 1] >= keys[i]) CU_FAIL("%s:iteration_not_strictly_ascending_at_%ld", which, i);
+        if (i && gap < 0 && keys[i] > keys[i - 1] + 1) gap = keys[i - 1] + 1;
+    }
+    /* get / has_key at the position classes and at absent probes below / between / above */
+    if (n > 0) { pos[np++] = 0; pos[np++] = n > 1 ? 1 : 0; pos[np++] = n / 2; pos[np++] = n > 1 ? n - 2 : 0; pos[np++] = n - 1; }
+    for (q = 0; q < np; q++) {
+        static const char *pc[] = {"smallest", "second", "middle", "next_to_largest", "largest"};
+        spif_obj_t probe = cu_mk(keys[pos[q]]), r = SPIF_MAP_GET(M, probe);
+        spif_bool_t h = SPIF_MAP_HAS_KEY(M, probe);
+        SPIF_OBJ_DEL(probe);
+        if (SPIF_OBJ_ISNULL(r) || !h) CU_FAIL("%s:get_misses_a_present_key(%s)", which, pc[q]);
+        if (cu_val(r) != vals[pos[q]]) CU_FAIL("%s:get_returns_a_wrong_value(%s)", which, pc[q]);
+    }
+    probes[npr++] = 0; probes[npr++] = NK + 1;
+    if (gap > 0) probes[npr++] = gap;
+    if (n > 0 && keys[0] > 1) probes[npr++] = keys[0] - 1;
+    if (n > 0 && keys[n - 1] < NK) probes[npr++] = keys[n - 1] + 1;
+    for (q = 0; q < npr; q++) {
+        spif_obj_t probe = cu_mk(probes[q]), r = SPIF_MAP_GET(M, probe);
+        spif_bool_t h = SPIF_MAP_HAS_KEY(M, probe);
+        SPIF_OBJ_DEL(probe);
+        if (!SPIF_OBJ_ISNULL(r) || h) CU_FAIL("%s:get_finds_an_absent_key", which);
+    }
+    for (v = 1; v <= NV + 1; v++) {
+        spif_obj_t probe = cu_mk(v); int want = 0;
+        spif_bool_t h = SPIF_MAP_HAS_VALUE(M, probe);
+        SPIF_OBJ_DEL(probe);
+        for (i = 0; i < n; i++) if (vals[i] == v) { want = 1; break; }
+        if ((h ? 1 : 0) != want) CU_FAIL("%s:has_value_wrong", which);
+    }
+    /* the three listings */
+    for (q = 0; q < 3; q++) {
+        static const char *ln[] = {"get_keys", "get_values", "get_pairs"};
+        L = (q == 0) ? SPIF_MAP_GET_KEYS(M, (spif_list_t) NULL) : (q == 1) ? SPIF_MAP_GET_VALUES(M, (spif_list_t) NULL)
+                                                                           : SPIF_MAP_GET_PAIRS(M, (spif_list_t) NULL);
+        if (SPIF_LIST_ISNULL(L)) CU_FAIL("%s:%s=NULL", which, ln[q]);
+        if ((long) SPIF_LIST_COUNT(L) != n) { SPIF_LIST_DEL(L); CU_FAIL("%s:%s_length", which, ln[q]); }
+        it = SPIF_LIST_ITERATOR(L);
+        for (i = 0; i < n; i++) {
+            spif_obj_t e = SPIF_ITERATOR_NEXT(it); int ok;
+            if (q == 0) ok = cu_val(e) == keys[i];
+            else if (q == 1) ok = cu_val(e) == vals[i];
+            else ok = SPIF_OBJ_IS_OBJPAIR(e) && cu_val(SPIF_OBJPAIR(e)->key) == keys[i] && cu_val(SPIF_OBJPAIR(e)->value) == vals[i];
+            if (!ok) { SPIF_ITERATOR_DEL(it); SPIF_LIST_DEL(L); CU_FAIL("%s:%s_mismatch_at_%ld", which, ln[q], i); }
+        }
+        SPIF_ITERATOR_DEL(it);
+        SPIF_LIST_DEL(L);
+    }
+    if ((inv = cu_walk(M, n, which, pair_ordkey, 1))) return inv;
+    return NULL;
+}
+
+/* the map's OWN pair object for key k (as its iterator hands it out), or NULL */
+static spif_objpair_t own_pair(spif_map_t M, long k) {
+    spif_iterator_t it = SPIF_MAP_ITERATOR(M);
+    spif_objpair_t found = (spif_objpair_t) NULL;
+    while (SPIF_ITERATOR_HAS_NEXT(it)) {
+        spif_obj_t p = SPIF_ITERATOR_NEXT(it);
+        if (SPIF_OBJ_IS_OBJPAIR(p) && cu_val(SPIF_OBJPAIR(p)->key) == k) { found = SPIF_OBJPAIR(p); break; }
+    }
+    SPIF_ITERATOR_DEL(it);
+    return found;
+}
+
 static void vh_begin(void) {
+    cu_begin_script(vh_cur_sid);
     A = new_map(); B = (spif_map_t) NULL; IT = (spif_iterator_t) NULL; it_count = -1; held = 0;
     HK = HV = (spif_obj_t) NULL;
 }
@@ -196,6 +293,42 @@ static const char *vh_step(const vh_step_t *st, vh_sb *ret, vh_sb *state) {
         sb_bool(ret, r);
         cu_scribble(p->key); cu_scribble(p->value);
         SPIF_OBJ_DEL(SPIF_OBJ(p));
+    } else if (OP("set_from")) {
+        /* aliased argument: the value IS the object the map stores under key j */
+        spif_obj_t k = cu_mk(vh_int(st->args[0])), j = cu_mk(vh_int(st->args[1])), v = SPIF_MAP_GET(M, j);
+        spif_bool_t r;
+        SPIF_OBJ_DEL(j);
+        if (SPIF_OBJ_ISNULL(v)) { SPIF_OBJ_DEL(k); return "set_from:source_key_absent"; }
+        r = SPIF_MAP_SET(M, k, v);
+        sb_bool(ret, r);
+        cu_scribble(k); SPIF_OBJ_DEL(k);
+    } else if (OP("set_own_pair")) {
+        spif_objpair_t p = own_pair(M, vh_int(st->args[0]));
+        if (SPIF_OBJPAIR_ISNULL(p)) return "set_own_pair:key_absent";
+        sb_bool(ret, SPIF_MAP_SET(M, SPIF_OBJ(p), (spif_obj_t) NULL));
+    } else if (OP("set_own_key")) {
+        spif_objpair_t p = own_pair(M, vh_int(st->args[0]));
+        spif_obj_t v = cu_mk(vh_int(st->args[1]));
+        if (SPIF_OBJPAIR_ISNULL(p)) { SPIF_OBJ_DEL(v); return "set_own_key:key_absent"; }
+        sb_bool(ret, SPIF_MAP_SET(M, p->key, v));
+        cu_scribble(v); SPIF_OBJ_DEL(v);
+    } else if (OP("remove_own_key")) {
+        spif_objpair_t p = own_pair(M, vh_int(st->args[0]));
+        spif_obj_t r;
+        if (SPIF_OBJPAIR_ISNULL(p)) return "remove_own_key:key_absent";
+        r = SPIF_MAP_REMOVE(M, p->key);
+        sb_pair(ret, r);
+        if (!SPIF_OBJ_ISNULL(r)) SPIF_OBJ_DEL(r);
+    } else if (OP("fill_set")) {
+        long lo = vh_int(st->args[0]), hi = vh_int(st->args[1]), stp = vh_int(st->args[2]), val = vh_int(st->args[3]), k, rep = 0;
+        if (stp < 1) return "fill_set:bad_step";
+        for (k = lo; k <= hi; k += stp) {
+            spif_obj_t ko = cu_mk(k), vo = cu_mk(val);
+            if (SPIF_MAP_SET(M, ko, vo)) rep++;
+            cu_scribble(ko); cu_scribble(vo);
+            SPIF_OBJ_DEL(ko); SPIF_OBJ_DEL(vo);
+        }
+        sb_int(ret, rep);
     } else if (OP("caller_mutates")) {
         cu_scribble(HK); cu_scribble(HV); held = 2;
         sb_bool(ret, 1);
@@ -256,12 +389,12 @@ static const char *vh_step(const vh_step_t *st, vh_sb *ret, vh_sb *state) {
     (void) onb;
 
     sb_puts(state, "{a=");
-    if ((inv = readback(A, "a", state))) return inv;
+    if ((inv = (compact ? readback_compact : readback)(A, "a", state))) return inv;
     sb_puts(state, ",b={live=");
     if (SPIF_MAP_ISNULL(B)) sb_puts(state, "F,s=[]}");
     else {
         sb_puts(state, "T,s=");
-        if ((inv = readback(B, "b", state))) return inv;
+        if ((inv = (compact ? readback_compact : readback)(B, "b", state))) return inv;
         sb_putc(state, '}');
     }
     sb_printf(state, ",held=%d,it=%d}", held, it_count);
@@ -269,11 +402,15 @@ static const char *vh_step(const vh_step_t *st, vh_sb *ret, vh_sb *state) {
 }
 
 int main(int argc, char **argv) {
-    if (argc < 5) { fprintf(stderr, "usage: %s <class> <NK> <NV> <scripts> [first]\n", argv[0]); return 2; }
+    if (argc < 7) { fprintf(stderr, "usage: %s <class> <NK> <NV> <enc> <full|compact> <scripts> [first]\n", argv[0]); return 2; }
     cu_cls = argv[1];
     NK = atol(argv[2]); NV = atol(argv[3]);
-    if (NK < 1 || NK > 16000 || NV < 1) { fprintf(stderr, "bad NK/NV\n"); return 2; }
+    cu_enc_arg = atoi(argv[4]);
+    compact = !strcmp(argv[5], "compact");
+    if (NK < 1 || NK > 32000 || NV < 1 || (!compact && NK > 16000)) { fprintf(stderr, "bad NK/NV\n"); return 2; }
+    if (cu_enc_arg == 2 && NK > 253) { fprintf(stderr, "family 2 needs NK <= 253\n"); return 2; }
+    cu_N = NK;
     libast_set_program_name("map_replay");
     DEBUG_LEVEL = 0;
-    return vh_main(argc, argv, 4);
+    return vh_main(argc, argv, 6);
 }
